@@ -101,8 +101,10 @@ fn send_plan(natt: usize, mask_bits: u32, max_len: usize) {
     if r.is_ok() {
         assert!(first_ok && pos == len, "C01/C13: send reported success but the delivered packets do not make up the message");
     }
-    cover!(r.is_ok() && n >= 3, "REACH_OK_FRAGMENTED");
-    cover!(r.is_err(), "REACH_ERR");
+    crate::witness!(r.is_ok() && n >= 3, "WITNESS:REACH_OK_FRAGMENTED");
+    if mask_bits > 0 {
+        crate::witness!(r.is_err(), "WITNESS:REACH_ERR");
+    }
     // the dedicated pair is gone again whatever happened (C11)
     if dedicated_rx >= 0 {
         assert!(!env::is_open(dedicated_rx) && !env::is_open(env::pair_of(dedicated_rx)), "C11: dedicated channel leaked");
@@ -112,7 +114,7 @@ fn send_plan(natt: usize, mask_bits: u32, max_len: usize) {
     drop(tx);
     drop(rx);
     assert!(env::nopen() == 0 && !env::bad_close(), "C11: ledger after send");
-    cover!(true, "REACH_END");
+    crate::reach_end!();
 }
 
 harnesses! {
